@@ -174,7 +174,7 @@ def check(asserts, timeout=30, want_model=False, solvers=('z3',), extra=()):
 
 
 def ufs_needed(asserts):
-    return any(n.op == 'uf' for n in sr.topo(asserts))
+    return (not sr.ABSTRACT_UF[0]) and any(n.op == 'uf' for n in sr.topo(asserts))
 
 
 def model_to_float(env):
